@@ -10,8 +10,27 @@ RULE = ("stream conc: 3-6 worker threads issue API operations (ROA/ASPA/BGPsec c
 
 def sig(case, idx, verdict):
     if verdict.startswith("FAIL oracle"):
-        return "oracle:" + ",".join(sorted(set(verdict.split()[2:3])))
+        return "oracle:" + ",".join(sorted(set(verdict.split()[2:])))
     return "model:" + " ".join(verdict.split()[2:8])
+
+
+def corpus_repeated(ctx, reps):
+    import concurrent.futures
+    files = sorted((vlib.VERIF / "corpus" / "conc").glob("*.ops"))
+    jobs = [(f, i) for f in files for i in range(reps)]
+    def one(job):
+        f, i = job
+        tr = ctx.work / f"corpus-{f.stem}-{i}.trace"
+        r = vlib.run([vlib.hbin("conc"), "--ops", str(f), "--out", str(tr)], timeout=3600)
+        return (r.returncode, r.stdout[-2000:], tr)
+    out = []
+    with concurrent.futures.ThreadPoolExecutor(max_workers=12) as ex:
+        for rc, tail, tr in ex.map(one, jobs):
+            if rc != 0:
+                vlib.report_violation(ctx, "harness-crash", {"harness": "conc", "output": tail}, signature="crash:conc:corpus")
+            elif tr.exists():
+                out.append(tr)
+    return out
 
 
 def check(ctx):
@@ -19,7 +38,9 @@ def check(ctx):
     found = False
     if vlib.build_harness(ctx, ["conc"]):
         n = 12 if ctx.tier == "quick" else 240
-        traces = vlib.corpus_traces(ctx, "conc")
+        # races are probabilistic: every corpus scenario is repeated
+        reps = 8 if ctx.tier == "quick" else 40
+        traces = corpus_repeated(ctx, reps)
         traces += vlib.parallel_traces(ctx, "conc", n, 0, procs=12)
         found = vlib.judge_traces(ctx, "conc", "conc", traces, sig)
         # a worker that never came back makes the harness exit with code 3 (reported as harness-crash above)
